@@ -198,9 +198,27 @@ static void sweep_item(uint64_t i, CaseInfo& ci) {
     int zone; double e = trunc_to_double(A, Int(1), zone); double g = mpz_get_d(a); REQUIRE(g == e, "mpz_get_d(%s) = %a, exact truncation %a", show(A).c_str(), g, e);
   }
 }
+// deterministic case: operands whose limb counts differ by 2^31 (a = 2^(64*(2^30-1)), b = -a): the sign of mpz_cmp must not depend on the size difference fitting an int.
+// The 8 GiB limb arrays come from a lazily mapped allocator installed for the duration of the case, so only the pages that are touched cost memory.
+#include <sys/mman.h>
+static void* lazy_alloc(size_t n) { void* p = mmap(nullptr, n ? n : 1, PROT_READ | PROT_WRITE, MAP_PRIVATE | MAP_ANONYMOUS | MAP_NORESERVE, -1, 0); return p == MAP_FAILED ? nullptr : p; }
+static void* lazy_realloc(void* o, size_t on, size_t nn) { void* p = lazy_alloc(nn); if (p && o) { memcpy(p, o, std::min(on, nn) < 4096 ? std::min(on, nn) : 4096); munmap(o, on ? on : 1); } return p; }
+static void lazy_free(void* p, size_t n) { munmap(p, n ? n : 1); }
+static void fixed_case(unsigned k, CaseInfo& ci) {
+  if (k != 0) return;
+  void* (*oa)(size_t); void* (*orl)(void*, size_t, size_t); void (*ofr)(void*, size_t); mp_get_memory_functions(&oa, &orl, &ofr); mp_set_memory_functions(lazy_alloc, lazy_realloc, lazy_free);
+  ci.desc = "a = 2^(64*(2^30-1)) (2^30 limbs, lazily mapped), b = -a: mpz_cmp(a,b), mpz_cmp(b,a), mpz_cmp_si(a,-5), mpz_cmp(a,-1)";
+  const mp_size_t N = (mp_size_t)1 << 30; mpz_t a, b, m1; mpz_init(a); mpz_init(b); mpz_init(m1); bool ok = true; int r1 = 0, r2 = 0, r3 = 0, r4 = 0;
+  mp_limb_t* ap = mpz_limbs_write(a, N); mp_limb_t* bp = mpz_limbs_write(b, N);
+  if (ap && bp) { ap[N - 1] = 1; bp[N - 1] = 1; mpz_limbs_finish(a, N); mpz_limbs_finish(b, -N); mpz_set_si(m1, -1);
+    r1 = mpz_cmp(a, b); r2 = mpz_cmp(b, a); r3 = mpz_cmp_si(a, -5L); r4 = mpz_cmp(a, m1); ok = r1 > 0 && r2 < 0 && r3 > 0 && r4 > 0; }
+  mpz_clear(a); mpz_clear(b); mpz_clear(m1); mp_set_memory_functions(oa, orl, ofr);
+  REQUIRE(ap && bp, "cannot map 8 GiB of address space twice (harness limitation, not a verdict)");
+  REQUIRE(ok, "operands of 2^30 limbs with opposite signs: mpz_cmp(a,b) = %d (want > 0), mpz_cmp(b,a) = %d (want < 0), mpz_cmp_si(a,-5) = %d (want > 0), mpz_cmp(a,-1) = %d (want > 0)", r1, r2, r3, r4);
+}
 namespace eng {
 PropDef g_prop = {"C11",
   "Cases: integers / rationals / hand-built mpf values at 0, +-1, +-2^k, +-2^k+-1,2 for k in {7,8,15,16,31,32,52,53,54,62,63,64,65,127,128,1023,1024,1074} and random; doubles from bit patterns (subnormals, 2^k neighbourhoods, halves, huge exponents, +-inf, +-0; never NaN) and doubles adjacent to the integer operand; values with more than 53 significant bits whose discarded part exceeds half an ulp; mpq_cmp_ui/si with common factors in num2/den2 and with the non-canonical equal value; mpf values in a different representation of the same number. Functions: mpz_cmp/cmpabs/_ui/_si/_d/sgn, mpz_set_ui/si/ux/sx/d, mpz_get_ui/si/ux/sx/d/d_2exp, the eight mpz_fits_*_p, mpq_cmp/_ui/_si/_z/equal/get_d, mpf_cmp/_d/_ui/_si/_z, mpf_get_d/d_2exp/si/ui, mpf_integer_p, the six mpf_fits_*_p. Oracle: refint exact rational comparison and exact IEEE truncation toward zero (infinity on overflow; below the normal range the exact subnormal truncation or 0.0 is accepted because the manual calls that range system dependent); get_si/get_ui outside the representable range is not asserted. Non-trivial: non-zero operand. Distinct = hash of all decoded choices.",
-  check, nullptr, {"mpf_cmp_d:a_next_to_d", "mpf_get_d:huge_exponent", "double:subnormal", "double:near_2^k", "double:inf", "more_than_53_bits", "cmp_d:more_than_53_bits", "get_d:overflow", "get_d:below_normal_range", "cmp_ui:common_factor", "mpf:near_boundary", "mpf_cmp:equal_different_repr", "set_d:fraction"}, nullptr, sweep_count, sweep_item,
+  check, nullptr, {"mpf_cmp_d:a_next_to_d", "mpf_get_d:huge_exponent", "double:subnormal", "double:near_2^k", "double:inf", "more_than_53_bits", "cmp_d:more_than_53_bits", "get_d:overflow", "get_d:below_normal_range", "cmp_ui:common_factor", "mpf:near_boundary", "mpf_cmp:equal_different_repr", "set_d:fraction"}, fixed_case, sweep_count, sweep_item,
   "every pair of signed values of up to three limbs with limbs from {0,1,2^63-1,2^63,2^64-2,2^64-1} (432 x 432): mpz_cmp, mpz_cmpabs, mpz_cmp_ui/_si/cmpabs_ui with the low limb of b, mpz_cmp_d/cmpabs_d with b as a double when exactly representable; for every value: mpz_sgn, get_ui, get_si (in range), the six fits predicates, mpz_get_d"};
 }
